@@ -844,11 +844,9 @@ def a1_area_volume(ctx):
         if isinstance(e, ast.BinOp) and isinstance(e.op, ast.Sub):
             x, y = _vertex_of(e.left), _vertex_of(e.right)
             edges.append((x.id if isinstance(x, ast.Name) else None, y.id if isinstance(y, ast.Name) else None))
-    apex = {y for x, y in edges}
-    ok = shape and len(edges) == 3 and len(apex) == 1 and None not in apex and len(row) == 4 \
-        and {x for x, y in edges} | apex == set(row) and len({x for x, y in edges}) == 3
+    ok = shape and len(edges) == 3 and len(row) == 4 and spans_simplex(edges, row)
     ctx.check(ok, "C07-A1", ctx.site(mod, fn, st),
-              f"cell_volume: `{au.src(v)}` is not |det(three edge vectors from one apex of the tetrahedron)| / 6 (edges found: {edges})",
+              f"cell_volume: `{au.src(v)}` is not |det(three independent edge vectors of the tetrahedron)| / 6 (edges found: {edges})",
               "the volume of a tetrahedron is a sixth of the absolute determinant of three edges sharing a vertex",
               note="tet volume = |det(A-D, B-D, C-D)|/6")
     gate = None
@@ -877,6 +875,28 @@ def _diff(e):
         if isinstance(l, ast.Name) and isinstance(r, ast.Name):
             return l.id, r.id
     return None
+
+
+def _det_int(m):
+    if len(m) == 1:
+        return m[0][0]
+    return sum((-1) ** j * m[0][j] * _det_int([r[:j] + r[j + 1:] for r in m[1:]]) for j in range(len(m)))
+
+
+def spans_simplex(edges, points):
+    """edges: [(x, y)] standing for the vectors P_x - P_y between the vertices `points` of a simplex.  True when their
+    determinant equals +-(the determinant of the edges leaving one vertex), i.e. the same volume / area for every input."""
+    points = list(points)
+    if len(edges) != len(points) - 1 or any(x not in points or y not in points for x, y in edges):
+        return False
+    rows = []
+    for x, y in edges:
+        r = [0] * len(points)
+        r[points.index(x)] += 1
+        r[points.index(y)] -= 1
+        rows.append(r[:-1])
+    return abs(_det_int(rows)) == 1
+
 
 
 def _single_return(fn):
@@ -973,8 +993,8 @@ def x1_primitives(ctx):
         c = _find_call(ret.value.left, ("cross",))
         if c is not None and len(c.args) == 2 and _find_call(ret.value.left, ("norm",)) is not None:
             d = [_diff(b.resolve(x, at=ret)) for x in c.args]
-            ok = None not in d and d[0][1] == d[1][1] and {d[0][0], d[1][0], d[0][1]} == set(au.params(fn))
-    ctx.check(ok, R, site, "triangle_area: not |cross(Q-P, R-P)| / 2 over the three points",
+            ok = None not in d and spans_simplex(d, au.params(fn))
+    ctx.check(ok, R, site, "triangle_area: not |cross(e1, e2)| / 2 with e1, e2 two different edge vectors of the triangle",
               "area of a triangle is half the norm of the cross product of two edges sharing a vertex", note="triangle area")
     # quad_area : mean of the two diagonal splits
     fn, site, b = fn_site("quad_area")
@@ -1042,7 +1062,9 @@ def x1_primitives(ctx):
                     if None in dv or None in vecs or set(dv) != set(vecs):
                         vecs = None
             if vecs and None not in vecs:
-                ok = order_ok and vecs[0][1] == vecs[1][1] == ps[1] and {vecs[0][0], vecs[1][0]} == {ps[0], ps[2]}
+                away = vecs[0][1] == vecs[1][1] == ps[1] and {vecs[0][0], vecs[1][0]} == {ps[0], ps[2]}
+                towards = vecs[0][0] == vecs[1][0] == ps[1] and {vecs[0][1], vecs[1][1]} == {ps[0], ps[2]}
+                ok = order_ok and (away or towards)    # negating both vectors changes neither sine nor cosine
                 detail = f" (vectors {vecs})"
         ctx.check(ok, R, site,
                   f"{name}: not built from the two vectors leaving the central point `{ps[1] if len(ps) > 1 else '?'}`"
